@@ -11,7 +11,13 @@ CFG = dict(
               "the keepalive timer never ends the session",
               "zero-disables: negotiated 0 => after the OPEN exchange no Set*Timer with a finite value, no leftover OpenSent "
               "hold timer, no timer-caused SessionDown",
+              "collision (transcription): both roles of one peer behind the real ConnArbiter, each connection with the timers of its "
+              "own task, outputs applied to the CALLING task's timers whatever role they name (as apply_outputs does); every "
+              "connection - in particular the survivor of a collision - is judged by the same negotiated / re-arm / expiry / zero "
+              "clauses (signatures C08/collision/...)",
               "no panic",
+              "real-time part (c08b): plus 60 collision pairs whose SURVIVOR's remote end then stays silent (or sends one KEEPALIVE): "
+              "Hold Timer Expired and the KEEPALIVE cadence of the survivor are judged like a single session's (C08/real/collision/...); "
               "real-time part (c08b): 240 real PeerSession::run tasks in parallel behind accept_connection over loopback, scripted "
               "remote ends, hold pairs from {3,4,6,9,0}x{3,5,9,0,30}, measured at the remote end with the monotonic clock: "
               "early expiry (Hold Timer Expired / close read less than negotiated-20ms after the remote STARTED writing its last "
@@ -40,14 +46,23 @@ CFG = dict(
                          "real:sessions-finished": 150, "clause:real:expiry:observed": 80, "clause:real:zero:observed": 20,
                          "clause:real:keepalive-gap:observed": 80, "real:sessions:class-kept-alive": 40,
                          "real:sessions:class-silence": 25, "real:sessions:pair-9/3": 15, "real:sessions:pair-3/30": 8,
-                         "real:sessions:open-sent-blind": 50, "real:expiry:notification-4-0": 80}),
+                         "real:sessions:open-sent-blind": 50, "real:expiry:notification-4-0": 80,
+                         # collisions: transcription (two connections behind ConnArbiter) and real-time pairs
+                         "collision:second-to-open-confirm-won": 1000, "collision:second-to-open-confirm-lost": 1000,
+                         "collision:newcomer-vs-established": 1000, "collision:steps-judged-after-a-collision": 10000,
+                         "collision:pair-id-combinations-completed": 8,
+                         "real:collision:second-to-open-confirm-won": 8, "real:collision:second-to-open-confirm-lost": 8,
+                         "real:collision:loser-read-cease": 30, "real:sessions:class-collision-survivor-silent": 15,
+                         "real:sessions:class-collision-survivor-keepalive": 4}),
     quick=[e2("exh", "event::verif::c08::run", 4, 300, part="exhaustive", nshards=4, depth=6),
            e2("rnd", "event::verif::c08::run", 1, 180, part="random", random=10000),
-           e2("rt", "event::verif::c08b::run", 1, 360, sessions=240, workers=4)],
+           e2("col", "event::verif::c08::run", 1, 300, part="collision", depth=6),
+           e2("rt", "event::verif::c08b::run", 1, 360, sessions=240, collisions=60, workers=4)],
     thorough=[e2("exh", "event::verif::c08::run", 16, 1200, part="exhaustive", nshards=16, depth=8),
               e2("rnd", "event::verif::c08::run", 4, 600, part="random", random=100000),
               # wall-clock cross-check of the VDriver transcription against real PeerSessions over
               # loopback (hold time 0 and 3); never a verdict, only confirms / flags an unfaithful model
               e2("real", "event::verif::c08::run", 1, 120, part="real"),
-              e2("rt", "event::verif::c08b::run", 2, 400, sessions=400, workers=4)],
+              e2("col", "event::verif::c08::run", 1, 1500, part="collision", depth=7),
+              e2("rt", "event::verif::c08b::run", 2, 400, sessions=400, collisions=150, workers=4)],
 )
